@@ -241,6 +241,50 @@ def ground_truth(chk, prog):
             chk.error("GROUND-TRUTH: `%s` not found in Sensors.__init__ (anchor changed)" % need)
 
 
+def sampling_step(chk, prog):
+    """GROUND-TRUTH.dt: the gyroscopes are the quaternion differences divided by the sampling step.  Every call of QuaternionArray.angular_velocities made by
+    Sensors receives 1/<the instance's or the caller's frequency> (value numbers), and the yaw override converts degrees to radians by multiplying with DEG2RAD."""
+    cls = prog.cls(SENS + "::Sensors")
+    n = 0
+    for m in cls.methods.values():
+        hits = []
+
+        def on_call(fa, node, st, hits=hits):
+            if isinstance(node.func, ast.Attribute) and node.func.attr == "angular_velocities" and not (isinstance(node.func.value, ast.Name) and node.func.value.id == "self") and node.args:
+                hits.append((node, fa.vn(node.args[0], st)))
+        if not any(isinstance(x, ast.Attribute) and x.attr == "angular_velocities" for x in ast.walk(m.node)):
+            continue
+        Facts(m, prog, callbacks={"call": on_call}).analyse()
+        for node, vn in hits:
+            n += 1
+            site = "%s::%s" % (m.ref, ast.unparse(node)[:60])
+            import re as _re
+            if _re.fullmatch(r"Div\(c:1(\.0)?,(P:freq\w*|S:frequency)\)", vn):
+                chk.record("GROUND-TRUTH.dt", site, "time step handed to QuaternionArray.angular_velocities is 1/frequency")
+            else:
+                why = "the time step handed to QuaternionArray.angular_velocities value-numbers to %s, not 1/frequency: the gyroscopes are scaled wrongly and their integral no longer follows the trajectory" % vn[:60]
+                chk.record("GROUND-TRUTH.dt", site, "time step is 1/frequency", verdict="VIOLATION", detail=why)
+                chk.finding("GROUND-TRUTH.dt", SENS, m.qname, "angular_velocities(%s)" % ast.unparse(node.args[0])[:40], why, line=node.lineno)
+    if n < 2:
+        chk.error("GROUND-TRUTH.dt: %d calls of QuaternionArray.angular_velocities found in Sensors, 2 confirmed by hand" % n)
+    # yaw override: degrees -> radians
+    f = prog.func(SENS + "::Sensors.__init__")
+    stores = []
+
+    def on_store(fa, target, stmt, st):
+        if "ang_pos" in ast.unparse(target.value) and getattr(stmt, "value", None) is not None and "yaw" in ast.unparse(stmt.value):
+            stores.append((stmt, fa.vn(stmt.value, st)))
+    Facts(f, prog, callbacks={"store": on_store}).analyse()
+    for stmt, vn in stores:
+        site = f.ref + "::" + stmt_text(stmt)[:60]
+        if vn.startswith("Mult(") and "DEG2RAD" in vn and "Div(" not in vn:
+            chk.record("GROUND-TRUTH.yaw", site, "the requested yaw (degrees) is stored as yaw * DEG2RAD")
+        else:
+            why = "the yaw override stores %s: the documented unit of `yaw` is degrees and the angular positions are radians, so it must be multiplied by DEG2RAD" % vn[:60]
+            chk.record("GROUND-TRUTH.yaw", site, "yaw stored as yaw * DEG2RAD", verdict="VIOLATION", detail=why)
+            chk.finding("GROUND-TRUTH.yaw", SENS, "Sensors.__init__", "yaw override unit conversion", why, line=stmt.lineno)
+
+
 def zero_option(chk, prog):
     f = prog.func(SENS + "::Sensors.__init__")
     n = 0
@@ -300,6 +344,7 @@ def run(chk, prog, tier):
     config_frozen(chk, prog)
     ground_truth(chk, prog)
     zero_option(chk, prog)
+    sampling_step(chk, prog)
     chk.require_count("GENERATE.acc", 4)
     canaries(chk, prog)
     return __doc__
